@@ -87,6 +87,7 @@ package fpgo
 //@ func (someDef).ToPtr
 //@   prop C01
 //@   requires MB_WF(maybeSelf)
+//@   ensures not-a-live-pointer: !(rkind(maybeSelf.ref) == 22 && !absent(maybeSelf.ref)) ==> r0 != nil && fresh(r0) && *r0 == maybeSelf.ref
 
 // the None value: every observer answers "absent"
 //@ func (noneDef).Or
